@@ -153,12 +153,13 @@ func NewRouterInfo(
 
 	routerInfo.signature = signature
 
+	// The identity is deliberately not a log field: its String() method serialises (and logs), and
+	// logrus formats fields while holding its mutex, so logging it at debug level deadlocks.
 	log.WithFields(logger.Fields{
-		"router_identity": routerIdentity,
-		"published":       publishedDate,
-		"address_count":   len(addresses),
-		"options":         options,
-		"signature":       signature,
+		"published":     publishedDate,
+		"address_count": len(addresses),
+		"options":       options,
+		"signature":     signature,
 	}).Debug("Successfully created RouterInfo")
 
 	return routerInfo, nil
@@ -695,8 +696,8 @@ func ReadRouterInfo(bytes []byte) (info RouterInfo, remainder []byte, err error)
 		return
 	}
 
+	// (identity not logged: see NewRouterInfo)
 	log.WithFields(logger.Fields{
-		"router_identity":  info.router_identity,
 		"published":        info.published,
 		"address_count":    len(info.addresses),
 		"remainder_length": len(remainder),
